@@ -272,6 +272,7 @@ func supervise(p *core.Property, tier string) int {
 	}
 	defer os.RemoveAll(tmp)
 
+	_ = os.RemoveAll(filepath.Join(root, "evidence", "witness", p.ID)) // witnesses of earlier runs are stale
 	agg := &aggregate{hashes: map[string]bool{}, cover: map[string]int{}, samples: map[int]interface{}{}}
 	queue := make(chan chunk, n/csize+2)
 	for a := 0; a < n; a += csize {
